@@ -201,14 +201,25 @@ def extractFromSource (fixed : Bool) (LS LD : Layout) (c : List Nat) (axis : Lis
     | some tb' => pure (tb', start + size, ranges)) (tobuf, 0, ranges0)
   pure out
 
-/-- `comm.Alltoall(sendBuf, rcvBuf)` on the sub-communicators of process axis `a0`, all ranks at once:
+/-- where the ranks of a handler live: `coords r` = the handler's `mpi_coords` on world rank `r`,
+    `partner r a q` = the world rank whose coordinate on the handler's process axis `a` is `q` and which agrees
+    with `r` elsewhere (= rank `q` of `r`'s sub-communicator for that axis) -/
+structure Topo where
+  nRanks : Nat
+  coords : Nat → List Nat
+  partner : Nat → Nat → Nat → Nat
+
+/-- the topology `getLayoutHandler` builds: `Create_cart(nprocs)` + one `Sub` per axis -/
+def cartTopo (dims : List Nat) : Topo :=
+  { nRanks := prodL dims, coords := coordsOf dims,
+    partner := fun r a q => rankOf dims ((coordsOf dims r).set a q) }
+
+/-- `comm.Alltoall(sendBuf, rcvBuf)` on the sub-communicators of process axis `a0` (size `p`), all ranks at once:
     rank `c` receives chunk `c[a0]` of rank `c[a0 := q]` into chunk `q` -/
-def alltoallAxis (dims : List Nat) (a0 : Nat) (sizeOf : Nat → Nat) (w : World α) (sendRole rcvRole : Nat) :
+def alltoallAxis (T : Topo) (p a0 : Nat) (sizeOf : Nat → Nat) (w : World α) (sendRole rcvRole : Nat) :
     Except String (World α) := do
-  let p := dims.getD a0 1
-  let n := prodL dims
-  (List.range n).foldlM (fun (acc : World α) rank => do
-    let c := coordsOf dims rank
+  (List.range T.nRanks).foldlM (fun (acc : World α) rank => do
+    let c := T.coords rank
     let size := sizeOf rank
     if size % p ≠ 0 then throw "value-error: Alltoall count not divisible"
     let cs := size / p
@@ -216,7 +227,7 @@ def alltoallAxis (dims : List Nat) (a0 : Nat) (sizeOf : Nat → Nat) (w : World 
     let rcv0 := acc.get rcvRole rank
     if rcv0.size < size then throw "value-error: receive buffer too small"
     let rcv := (List.range p).foldl (fun (rb : Array α) q =>
-      let other := rankOf dims (c.set a0 q)
+      let other := T.partner rank a0 q
       let sb := w.get sendRole other
       (List.range cs).foldl (fun rb j => rb.setIfInBounds (q * cs + j) (sb.getD (me * cs + j) default)) rb) rcv0
     pure (acc.set rcvRole rank rcv)) w
@@ -252,16 +263,16 @@ def rearrangeFromBuffer (fixed : Bool) (LS LD : Layout) (c : List Nat) (axis : L
       | none => throw "value-error: could not broadcast (block loop)"
       | some d' => pure d') data
 
-/-- one direct change of layout on all ranks: `_transpose(X, Y)` is `directStep X Y X`,
-    `_transpose_source_intact(X, Y, Z)` is `directStep X Y Z` (:627-686) -/
-def directStep (fixed : Bool) (h : Handler) (iS iD : Nat) (x y z : Nat) (w : World α) : Except String (World α) := do
+/-- one direct change of layout on all ranks: `_transpose(X, Y)` is `directStepT … X Y X`,
+    `_transpose_source_intact(X, Y, Z)` is `directStepT … X Y Z` (:627-686) -/
+def directStepT (fixed : Bool) (T : Topo) (h : Handler) (iS iD : Nat) (x y z : Nat) (w : World α) : Except String (World α) := do
   let LS := h.layoutAt iS; let LD := h.layoutAt iD
   let axis := swapAxes h.nprocs LS.ord LD.ord
-  let n := h.nRanks
+  let n := T.nRanks
   if axis.length = 0 then
     -- both swapped axes undistributed: local transpose
     (List.range n).foldlM (fun (acc : World α) rank => do
-      let c := coordsOf h.nprocs rank
+      let c := T.coords rank
       let src := acc.get x rank; let dst := acc.get y rank
       let some sv := View.chunk src.size 0 (LS.shape c) | throw "value-error: source reshape"
       let some dv := View.chunk dst.size 0 (LD.shape c) | throw "value-error: dest reshape"
@@ -273,14 +284,18 @@ def directStep (fixed : Bool) (h : Handler) (iS iD : Nat) (x y z : Nat) (w : Wor
     let a0 := axis.getD 0 0
     let p := h.nprocs.getD a0 1
     let w1 ← (List.range n).foldlM (fun (acc : World α) rank => do
-      let c := coordsOf h.nprocs rank
+      let c := T.coords rank
       let out ← extractFromSource fixed LS LD c axis (acc.get x rank) (acc.get y rank)
       pure (acc.set y rank out)) w
-    let w2 ← alltoallAxis h.nprocs a0 (fun rank => prodL (exchangeShape LS LD (coordsOf h.nprocs rank) axis p)) w1 y z
+    let w2 ← alltoallAxis T p a0 (fun rank => prodL (exchangeShape LS LD (T.coords rank) axis p)) w1 y z
     (List.range n).foldlM (fun (acc : World α) rank => do
-      let c := coordsOf h.nprocs rank
+      let c := T.coords rank
       let out ← rearrangeFromBuffer fixed LS LD c axis p (acc.get y rank) (acc.get z rank)
       pure (acc.set y rank out)) w2
+
+/-- the direct step of a stand-alone handler (`getLayoutHandler`) -/
+def directStep (fixed : Bool) (h : Handler) (iS iD : Nat) (x y z : Nat) (w : World α) : Except String (World α) :=
+  directStepT fixed (cartTopo h.nprocs) h iS iD x y z w
 
 /-- `dest[:] = source` on every rank -/
 def copyWhole (n : Nat) (w : World α) (fromRole toRole : Nat) : World α :=
@@ -321,21 +336,32 @@ def followRoute (step : Nat → Nat → Nat → Nat → Nat → World α → Exc
       let (w', _, _, _) ← rest.foldlM (loopBody step) (w1, first, fromB, toB)
       pure w'
 
-/-- `LayoutHandler.transpose(source, dest, source_name, dest_name, buf)` on all ranks (:485-625).
+/-- `LayoutHandler.transpose(source, dest, source_name, dest_name, buf)` on all ranks (:485-625), reading role
+    `x`, writing role `y`, spare buffer role `z` (used iff `useBuf`).
     `rm.r iS iD` = `self._route_map[source_name][dest_name]` (indices). -/
-def transposeWorld (fixed : Bool) (h : Handler) (rm : RouteMap) (iS iD : Nat) (useBuf : Bool) (w : World α) :
-    Except String (World α) := do
-  let n := h.nRanks
+def transposeWorldT (fixed : Bool) (T : Topo) (h : Handler) (rm : RouteMap) (iS iD : Nat) (useBuf : Bool)
+    (x y z : Nat) (w : World α) : Except String (World α) := do
+  let n := T.nRanks
   -- asserts :521-524
   for rank in List.range n do
-    let bs := h.bufferSize (coordsOf h.nprocs rank)
-    if (w.get 0 rank).size < bs ∨ (w.get 1 rank).size < bs then throw "assert: buffer smaller than bufferSize"
+    let bs := h.bufferSize (T.coords rank)
+    if (w.get x rank).size < bs ∨ (w.get y rank).size < bs then throw "assert: buffer smaller than bufferSize"
   if iS = iD then
     pure <| (List.range n).foldl (fun acc rank =>
-      let sz := (h.layoutAt iD).size (coordsOf h.nprocs rank)
-      acc.set 1 rank (copyPrefix (acc.get 1 rank) (acc.get 0 rank) sz)) w
+      let sz := (h.layoutAt iD).size (T.coords rank)
+      acc.set y rank (copyPrefix (acc.get y rank) (acc.get x rank) sz)) w
   else
-    followRoute (directStep fixed h) n (rm.r iS iD) iS useBuf w
+    if x = 0 ∧ y = 1 ∧ z = 2 then followRoute (directStepT fixed T h) n (rm.r iS iD) iS useBuf w
+    else do
+      -- general roles: run followRoute on a world whose roles 0/1/2 are x/y/z, then put the blocks back
+      let perm : World α := #[w.getD x #[], w.getD y #[], w.getD z #[]]
+      let out ← followRoute (directStepT fixed T h) n (rm.r iS iD) iS useBuf perm
+      let w' := (w.setIfInBounds x (out.getD 0 #[])).setIfInBounds y (out.getD 1 #[])
+      pure (if useBuf then w'.setIfInBounds z (out.getD 2 #[]) else w')
+
+def transposeWorld (fixed : Bool) (h : Handler) (rm : RouteMap) (iS iD : Nat) (useBuf : Bool) (w : World α) :
+    Except String (World α) :=
+  transposeWorldT fixed (cartTopo h.nprocs) h rm iS iD useBuf 0 1 2 w
 
 end World
 end Handler
